@@ -109,6 +109,11 @@ pub fn run(tier: Tier) -> ! {
 /// under their id before busmc's broker half (see `check`); without a violation this half writes
 /// only a hand-over file and leaves the evidence to the broker half.
 pub fn run_prop(prop: &'static str, tier: Tier, only: Option<&[&str]>) -> ! {
+    run_prop_file(prop, &format!("{}-client", prop.to_lowercase()), tier, only)
+}
+
+/// `stem`: name of the hand-over file under .work (without .json).
+pub fn run_prop_file(prop: &'static str, stem: &str, tier: Tier, only: Option<&[&str]>) -> ! {
     let rep = std::sync::Arc::new(Reporter::new(prop, "taskmc", tier, if prop == "C06" { "exploration" } else { "model_checking" }));
     // an execution that never returns (endless loop inside one poll of the subject) becomes a verdict
     let wd = mcx::watchdog::ExecWatchdog::start(rep.clone(), "any-program/poll-never-returns", Duration::from_secs(30));
@@ -187,7 +192,7 @@ pub fn run_prop(prop: &'static str, tier: Tier, only: Option<&[&str]>) -> ! {
         let root = mcx::report::verif_root();
         let _ = std::fs::create_dir_all(root.join(".work"));
         let _ = std::fs::write(
-            root.join(".work").join(format!("{}-client.json", prop.to_lowercase())),
+            root.join(".work").join(format!("{stem}.json")),
             serde_json::to_string(&json!({"programs": only, "program_instances": n, "executions": executions.load(Ordering::Relaxed), "distinct_schedules": distinct,
                 "deviation_bound": cat.iter().map(|c| c.1).max(), "violations": rep.violation_count()}))
             .unwrap(),
